@@ -15,8 +15,8 @@ package checks
 // "server-survives|panic-outside-recover-*" instead of sending the request.
 
 import (
-	"encoding"
 	"bytes"
+	"encoding"
 	"encoding/json"
 	"fmt"
 	"io"
